@@ -67,6 +67,7 @@ func (b *builder) build(data []byte) (*val, error) {
 func (b *builder) ncalls() int { b.mu.Lock(); defer b.mu.Unlock(); return len(b.calls) }
 
 type upd struct {
+	failing bool // the last build failed and no build has succeeded since
 	name    string
 	u       *setec.Updater[*val]
 	b       *builder
@@ -94,7 +95,7 @@ func TestC15(t *testing.T) {
 		interfaceTyped(r)
 	}
 	r.Require("gets_after_install", "gets_without_install", "gets_after_many_installs", "builder_failures", "closes_checked", "updater_created_during_install",
-		"installs_with_failing_cache", "concurrent_gets", "updaters_from_racing_lookups", "interface_typed_updater_gets")
+		"installs_with_failing_cache", "concurrent_gets", "updaters_from_racing_lookups", "interface_typed_updater_gets", "gets_while_failed_build_outstanding")
 	r.Rule("sequential seeded histories over 2 secrets and up to 5 updaters: installs (0..4 between Gets, sometimes with a failing cache write), updater creation (also while an install lands during its initial build), scripted builder failures, Gets; exact expectations per Get on (builder invoked?, with which bytes, value returned, Err, Close counts). Concurrent runs: 8 Get goroutines vs an installer, judged by call/return stamps. Distinct = (event, installs since last Get capped at 3, builder outcome)")
 }
 
@@ -298,6 +299,7 @@ func seqCase(r *evid.Run, idx int) {
 						fail("failed-build-not-reported", "the builder failed but Err() is nil")
 						return
 					}
+					u.failing = true
 				} else {
 					if got.from != current[u.name] {
 						fail("stale-after-install", fmt.Sprintf("Get returned a value built from %q, newest installed is %q", got.from, current[u.name]))
@@ -308,6 +310,7 @@ func seqCase(r *evid.Run, idx int) {
 						return
 					}
 					u.cur = got
+					u.failing = false
 				}
 				u.pending = false
 				installsSince[u] = 0
@@ -320,6 +323,13 @@ func seqCase(r *evid.Run, idx int) {
 				if got != u.cur {
 					fail("value-changed-without-install", "Get returned a different value although nothing was installed")
 					return
+				}
+				if u.failing {
+					r.Count("gets_while_failed_build_outstanding", 1)
+					if u.u.Err() == nil {
+						fail("failed-build-not-reported", "the last build failed and none has succeeded since, the previous value is still being returned, but Err() is nil")
+						return
+					}
 				}
 			}
 			if !closeChecks(u) {
